@@ -54,6 +54,9 @@ ObsInit(C) ==
     cancel    |-> [e \in Ents |-> FALSE],   \* the user cancelled at e
     cancelEff |-> FALSE,                    \* ... before the delivery was complete
     cancelAtR |-> FALSE,                    \* a user's cancel has taken effect at the (current) receiver
+    eofCancelRx |-> FALSE,                  \* the sender's EOF(cancel) reached the (current) receiver before it had delivered
+    finCancelRx |-> FALSE,                  \* the receiver's Finished(cancel) reached the sender
+    kf        |-> FALSE,                    \* the recorded finding (complete delivery reported with data / metadata missing) occurred
     sinceCancel |-> [e \in Ents |-> 0],
     repCancel |-> [e \in Ents |-> FALSE],   \* e reported the cancel condition
     ncancel   |-> 0,
@@ -330,6 +333,18 @@ Step(o, ev, C) ==
                       /\ \E e \in Ents : ~repCancel2[e]
                    THEN {"C10:CancelReported"} ELSE {})
 
+      \* whatever the link did before: an entity that RECEIVED the peer's cancel (EOF(cancel) at the receiver before it had
+      \* delivered, Finished(cancel) at the sender) reports the cancel condition by the time it ends
+      eofCancelRx2 == IF spawned THEN FALSE
+                      ELSE o.eofCancelRx \/ (o.cancel["S"] /\ ~o.delivered /\ ev.ralive /\ ~o.everFault["R"] /\ ~o.cancel["R"]
+                                              /\ Delivered(ev, "R", "EOF") /\ ev.res = "ok" /\ ev.pin.cond = "CancelReceived")
+      finCancelRx2 == o.finCancelRx \/ (o.cancel["R"] /\ ev.salive /\ ~o.everFault["S"] /\ ~o.cancel["S"]
+                                          /\ Delivered(ev, "S", "Finished") /\ ev.res = "ok" /\ ev.pin.cond = "CancelReceived")
+      v10b == (IF ended2["R"] /\ ~o.ended["R"] /\ o.eofCancelRx /\ ~spawned /\ ~repCancel2["R"]
+               THEN {"C10:CancelReported"} ELSE {})
+              \cup (IF ended2["S"] /\ ~o.ended["S"] /\ finCancelRx2 /\ ~repCancel2["S"]
+                    THEN {"C10:CancelReported"} ELSE {})
+
       treeChanged == ev.tree # o.tree
       v13 == (IF treeChanged /\ ~firstDelivery /\ ~spawned /\ o.rinc = ev.rinc THEN {"C13:RequestsOutsideDelivery"} ELSE {})
              \cup {"C13:ResponsesDiffer" : p \in {q \in finOut : q.cond = "NoError" /\ o.delivered /\ q.resp # o.succResp}}
@@ -400,8 +415,15 @@ Step(o, ev, C) ==
       \* signatures of recorded findings (known_findings.json): a violation carries a signature
       \* iff it has the specific shape of a recorded finding
       incompleteUnack == isUnack /\ ~(rxMeta2 /\ (C.isfile => held2 = AllUnits(C)))
+      \* the finding has happened in this run: the receiver reported a complete delivery with data or metadata missing
+      kf2 == o.kf \/ (incompleteUnack /\ \E x \in finIndR : x.deliv = "Complete")
+      \* its consequences: that "delivery" ended the transaction; the PDUs still to come respawn a receive transaction which
+      \* delivers (again) and runs the filestore requests - judged against the bogus first delivery
+      Consequences == {"C13:RequestsOutsideDelivery", "C13:ResponsesDiffer", "C04:FileChanged", "C04:RequestsRedone"}
       sigOf(tag) == IF tag \in {"C18:IncompleteNotComplete", "C01:DeliveredIsSource"} /\ incompleteUnack /\ finIndS = {}
-                    THEN "unack-incomplete-reported-complete" ELSE ""
+                    THEN "unack-incomplete-reported-complete"
+                    ELSE IF tag \in Consequences /\ isUnack /\ o.kf /\ o.rinc > 1 THEN "unack-incomplete-reported-complete"
+                    ELSE ""
 
       o2 == [ susp |-> susp2, excused |-> excused2, cancel |-> cancel2,
               cancelEff |-> o.cancelEff \/ (cancelNow /\ ~o.delivered),
@@ -417,7 +439,7 @@ Step(o, ev, C) ==
               succ |-> succ2, delivered |-> delivered2,
               destAt |-> IF firstDelivery THEN ev.dest ELSE o.destAt,
               tree |-> ev.tree,
-              idle |-> idle2, fp |-> fp2, pend |-> pend2, pendMeta |-> pendMeta2,
+              idle |-> idle2, fp |-> fp2, pend |-> pend2, pendMeta |-> pendMeta2, kf |-> kf2, eofCancelRx |-> eofCancelRx2, finCancelRx |-> finCancelRx2,
               everSusp |-> [e \in Ents |-> IF e = "R" /\ spawned THEN FALSE ELSE o.everSusp[e] \/ isCmd(e, "Suspend")], cancelAtR |-> cancelAtR2,
               nEof |-> o.nEof + (IF eofNoErr # {} THEN 1 ELSE 0),
               nMeta |-> o.nMeta + (IF metaOut # {} THEN 1 ELSE 0),
@@ -429,6 +451,6 @@ Step(o, ev, C) ==
               finSent |-> (o.finSent /\ ~spawned) \/ finOut # {},
               tx |-> tx2, finR |-> finR2, succResp |-> succResp2, finPdu |-> finPdu2 ]
   IN [o |-> o2,
-      v |-> {<<tag, sigOf(tag)>> : tag \in v01 \cup v02 \cup v03 \cup v04 \cup v07 \cup v08 \cup v10 \cup v13 \cup v17 \cup v18 \cup v19 \cup v20}]
+      v |-> {<<tag, sigOf(tag)>> : tag \in v01 \cup v02 \cup v03 \cup v04 \cup v07 \cup v08 \cup v10 \cup v10b \cup v13 \cup v17 \cup v18 \cup v19 \cup v20}]
 
 =============================================================================
